@@ -41,6 +41,9 @@ pub struct Spec {
     pub edit_bound_after_fault: Option<usize>,
     pub follow: bool,
     pub orders: Orders,
+    /// explore the other declaration orders with the step's faults too (else failure-free)
+    #[serde(default)]
+    pub orders_faulty: bool,
     pub twin: bool,
     pub misuse: bool,
     pub reconsider: bool,
@@ -63,6 +66,7 @@ impl Spec {
             edit_bound_after_fault: None,
             follow: false,
             orders: Orders::None,
+            orders_faulty: false,
             twin: false,
             misuse: false,
             reconsider: false,
@@ -307,8 +311,13 @@ pub fn analyze(cfg: &Cfg, spec: &Spec, faults: bool) -> Result<ConfigResult, Mac
         }
     }
 
-    if spec.orders != Orders::None && (on(spec.mon, 14) || on(spec.mon, 15) || on(spec.mon, 5) || on(spec.mon, 6)) {
-        declaration_orders(&cfg, spec, &base, &ff_opts, &mut res)?;
+    if spec.orders != Orders::None && (spec.orders_faulty || on(spec.mon, 14) || on(spec.mon, 15) || on(spec.mon, 5) || on(spec.mon, 6)) {
+        let mut o = ff_opts;
+        if spec.orders_faulty {
+            o.allow_fail = faults;
+            o.allow_abort = faults;
+        }
+        declaration_orders(&cfg, spec, &base, &o, &mut res)?;
     }
     if spec.follow {
         followups(&cfg, spec, &ex, &mut res)?;
